@@ -25,10 +25,11 @@
 package c12
 
 import (
-	"errors"
 	"bytes"
-	"github.com/nspcc-dev/neo-go/pkg/smartcontract/trigger"
+	"errors"
 	"fmt"
+	"github.com/nspcc-dev/neo-go/pkg/smartcontract/trigger"
+	"github.com/nspcc-dev/neo-go/pkg/util"
 	"strings"
 
 	"github.com/nspcc-dev/neo-go/pkg/core/fee"
@@ -116,9 +117,9 @@ var strictKnown bool
 const LoadSyscallID = 0x76657269
 
 type Report struct {
-	Leaky     bool   // the listed finding KnownCalleeStackLeak may have happened in this run
-	DynLoads  int    // scripts loaded through the harness's system call (frames with an evaluation stack of their own)
-	PrevState string // state the previous run on the same VM ended in ("" when there was none)
+	Leaky              bool   // the listed finding KnownCalleeStackLeak may have happened in this run
+	DynLoads           int    // scripts loaded through the harness's system call (frames with an evaluation stack of their own)
+	PrevState          string // state the previous run on the same VM ended in ("" when there was none)
 	Steps              int
 	State              string // HALT | FAULT | CAPPED
 	FaultMsg           string
@@ -216,7 +217,7 @@ func monitor(c Case, stepCap, workCap int) (*Report, error) {
 	// The harness's own system call: pops a byte string and loads it as a script with an evaluation stack of its own
 	// (what System.Contract.Call / System.Runtime.LoadScript do), charged like a CALL so that the step bound holds.
 	v.SyscallHandler = func(vv *vm.VM, id uint32) error {
-		if id != LoadSyscallID {
+		if id != LoadSyscallID && id != LoadHashSyscallID {
 			return errors.New("syscall not found")
 		}
 		b, err := vv.Estack().Pop().Item().TryBytes()
@@ -225,6 +226,23 @@ func monitor(c Case, stepCap, workCap int) (*Report, error) {
 		}
 		if err := vv.AddPicoGas(minCallCoef() * base); err != nil {
 			return err
+		}
+		if id == LoadHashSyscallID {
+			// a contract call: script loaded under a given (contract) hash, one argument, one return value (pointer.go)
+			hb, err := vv.Estack().Pop().Item().TryBytes()
+			if err != nil {
+				return err
+			}
+			h, err := util.Uint160DecodeBytesBE(hb)
+			if err != nil {
+				return err
+			}
+			arg := vv.Estack().Pop().Item()
+			vv.LoadScriptWithHash(bytes.Clone(b), h, callflag.All)
+			vv.Estack().PushItem(arg)
+			addProg(vv.Context().Program())
+			rep.DynLoads++
+			return nil
 		}
 		vv.LoadScriptWithFlags(bytes.Clone(b), callflag.All)
 		addProg(vv.Context().Program())
@@ -628,6 +646,9 @@ func checkCase(c Case, o *vt.Obs) error {
 	// or one of the limits (2048 items / 1024 invocations / 16 TRY / gas) was hit.
 	// (a gas FAULT counts only after at least 10 executed instructions: "gas limit 0" is not an interesting run).
 	switch {
+	case c.Kind == "pointer" && rep.DynLoads == 2:
+		// both frames were loaded: the Pointer made by the first one reached the CALLA of the second one
+		o.NonTrivial()
 	case rep.SharedMut > 0:
 		o.NonTrivial()
 	case rep.HitLimit == "limit-2048" || rep.HitLimit == "limit-1024" || rep.HitLimit == "limit-16":
